@@ -325,11 +325,15 @@ def eval_in_coq(pid, requires, evalfn, terms, workdir, shard=400, tag="cases"):
     out = []
     for k, (rc, text, cmd) in enumerate(results):
         cmds.append(cmd)
-        if rc != 0:
-            return None, cmds, "coqc failed on shard %d:\n%s" % (k, text[-3000:])
-        rows = parse_bool_rows(text)
+        rows = parse_bool_rows(text) if rc == 0 else None
         if rows is None or len(rows) != len(shards[k]):
-            return None, cmds, "cannot parse coqc output of shard %d:\n%s" % (k, text[-3000:])
+            # one retry: a shard killed or cut short by memory / CPU pressure is not a verdict
+            rc, text, cmd = one(k)
+            rows = parse_bool_rows(text) if rc == 0 else None
+        if rc != 0:
+            return None, cmds, "coqc failed on shard %d (rc=%d):\n%s\n...\n%s" % (k, rc, text[:1500], text[-2500:])
+        if rows is None or len(rows) != len(shards[k]):
+            return None, cmds, "cannot parse coqc output of shard %d:\n%s\n...\n%s" % (k, text[:1500], text[-2500:])
         out.extend(rows)
     return out, cmds, ""
 
